@@ -54,16 +54,66 @@ CHECKS = {
         note="menu/menu2 case headers are paired with message_SwitchMenu headers only (what the specification ties them to).",
         design="2/C13",
     ),
+    "C02": dict(
+        category="model_checking",
+        technique="exhaustive enumeration of well-formed SSB routine sets and compiler-shaped programs; explicit-state exploration of Machine(x) x Machine(compile(decompile(x))), Ref(text) x Machine(x) and Ref(p) x Ref(decompile(compile(p)))",
+        text="For every input of two bounded exhaustive families (compile output of G-prog programs with a terminator per routine; "
+             "all well-formed G-ssb routine sets up to the op bound) the real decompiler's text must compile and three complete "
+             "product searches (all paths, all outcomes, loops included) must find no distinguishing trace; routine tables equal.",
+        note="Trusted: vf/reader.py over the repository's generated parser, vf/refsem.py. Genuine decompiler defects that remain "
+             "(loops the loop pass does not recognise) are open known findings matched by exact case hash and failure kind.",
+        design="2/C02",
+    ),
+    "C06": dict(
+        category="exploration",
+        technique="exhaustive enumeration of the C02 input families under a process-level watchdog; structural comparison of the fallback's recompilation",
+        text="Every input of the C02 families is decompiled in a forked worker; the oracle is: an answer (str, SourceMap) within "
+             "the watchdog limit, no exception, and if the text carries the is-ssb-script marker, compiling it with the "
+             "ExplorerScript compiler reproduces the input op for op.",
+        note="A hang is 'no answer within 10 s' (typical 1 ms), confirmed once in isolation.",
+        design="2/C06",
+    ),
+    "C08": dict(
+        category="exploration",
+        technique="exhaustive enumeration of programs x layouts and macro call graphs x file layouts; op<->AST relation from the explored product Ref x Machine; positional oracle on every source map entry",
+        text="For every compiled program of G-forms/G-prog in four layouts and every G-macro case, the relation between emitted ops "
+             "and AST nodes obtained from the complete product search is used to check each source map entry against the "
+             "position recorded by the renderer: statement/condition/header start, macro file, macro name, call site, return "
+             "address bounds, contributing files, position marks.",
+        note="Ops the relation cannot attribute (unreachable code, glue jumps) only need to point at a statement start.",
+        design="2/C08",
+    ),
+    "C09": dict(
+        category="exploration",
+        technique="exhaustive enumeration of the C02 input families plus multi-line string placements; entries checked against the text and against the compile-time map of the recompiled text through the explored product relation",
+        text="For every input where C02 holds, every entry of the decompile-time source map (both decompilers) must be keyed by an "
+             "input offset, sit at the first non-blank of a line, and agree in line with the compile-time map entry of the op "
+             "that the product relation Machine(x) x Machine(compile(text)) relates it to; every related op has an entry.",
+        note="Jump ops and non-first members of a || group need no entry; entries of Jump ops are not position-checked.",
+        design="2/C09",
+    ),
+    "C14": dict(
+        category="exploration",
+        technique="exhaustive enumeration of well-typed source maps x all 4051 injective partial offset mappings 0..4->0..5 against a reference model",
+        text="All source maps over a small alphabet of entries (and maps produced by the compiler and both decompilers) are "
+             "serialised and read back: fields compared one by one, ==, idempotent re-serialisation; rewrite_offsets is compared "
+             "with a ten-line reference for every map of a reduced family under every injective partial mapping.",
+        note="Tuples and lists are identified after JSON; an unspecified return address (no later op survives) is not compared.",
+        design="2/C14",
+    ),
 }
 
-PENDING = {}
+PENDING = {
+    "C02": "check built (vf/props/C02.py); the case lists of its open known findings are being generated, claimed once they are committed",
+    "C04": "check built (vf/props/C04.py); the case list of its open known finding is being generated, claimed once it is committed",
+}
 
 
 def main():
     props = [json.loads(l)["id"] for l in open(os.path.join(HERE, "properties.jsonl"))]
     checks = []
     for pid in props:
-        if pid not in CHECKS:
+        if pid not in CHECKS or pid in PENDING:
             continue
         c = CHECKS[pid]
         checks.append({
@@ -78,7 +128,7 @@ def main():
             "technique": c["technique"],
         })
     na = [{"property_id": pid, "reason": PENDING.get(pid, "check not built yet in this session (planned, see DESIGN.md section 2)")}
-          for pid in props if pid not in CHECKS]
+          for pid in props if pid not in CHECKS or pid in PENDING]
     try:
         commits = subprocess.run(["git", "-C", "/repo", "log", "--format=%h %s", "c8fefe7..HEAD"],
                                  capture_output=True, text=True).stdout.strip().splitlines()
